@@ -372,6 +372,17 @@ def collectExceptions (w : World τ) (failures : List ExnId) : Option ExnId × L
 inductive Propagate where
   | swallow | reraise | raiseOther (e : ExnId)
 
+/-- `Concurrent(*children)` (concurrent_exception.py:299-306): the object specialises itself by its
+children's types, and `MetaConcurrent.__getitem__` asserts that these are `Exception` (or
+`Concurrent`) subclasses - a child task that died of a leaked `Interrupt` makes the construction
+itself fail -/
+def newConcurrent (w : World τ) (conc : List ExnId) : World τ × ExnId :=
+  let accepted (c : ExnId) : Bool := match w.exn c with
+    | .concurrent _ => true
+    | cls => isExceptionSubclass cls
+  if w.cfg.debug && !conc.all accepted then w.newExn (.assertion 8)
+  else w.newExn (.concurrent conc)
+
 /-- `Scope._propagate_exceptions` (context.py:298-317) for the exception `exc` (or none) that
 `__aexit__` is handling; may allocate the `Concurrent` object -/
 def propagateExceptions (w : World τ) (s : ScopeId) (exc : Option ExnId) : World τ × Propagate :=
@@ -392,13 +403,18 @@ def propagateExceptions (w : World τ) (s : ScopeId) (exc : Option ExnId) : Worl
       | some p => (w, .raiseOther p)
       | none =>
         if conc.isEmpty then (w, .swallow)
-        else let (w, e) := w.newExn (.concurrent conc); (w, .raiseOther e)
+        else let (w, e) := w.newConcurrent conc; (w, .raiseOther e)
     else
-      -- (the code still builds the Concurrent object here; it is dropped)
-      let w := if priv.isNone && !conc.isEmpty then (w.newExn (.concurrent conc)).1 else w
+      -- (the code still builds the Concurrent object here; it is dropped - unless building it fails)
       match priv with
       | some p => (w, .raiseOther p)
-      | none => (w, .reraise)
+      | none =>
+        if conc.isEmpty then (w, .reraise)
+        else
+          let (w, e) := w.newConcurrent conc
+          match w.exn e with
+          | .assertion _ => (w, .raiseOther e)
+          | _ => (w, .reraise)
 
 end World
 end USim.Machine
